@@ -274,7 +274,119 @@ fn socket_cases(tier: &str, seed: u64) -> Vec<Case> {
         Err(_) => { c = c.tag("sockets-not-exercised"); }
     }
     v.push(c);
+    v.push(live_resolver(tier, seed));
+    v.push(live_discovery(tier, seed));
     v
+}
+
+/// the one-shot resolver over loopback multicast: while a query is pending, datagrams that pass its
+/// header peek (response bit, the query's id 0, an answer count) but are otherwise hostile arrive,
+/// then the real answer. The call must return (no panic, no hang), with the right address if it
+/// answers at all.
+fn live_resolver(tier: &str, seed: u64) -> Case {
+    use simple_mdns::sync_discovery::OneShotMdnsResolver;
+    use std::net::UdpSocket;
+    use std::time::Duration;
+    let mut c = Case::oracle_only().tag("sockets-resolver");
+    let mut resolver = match OneShotMdnsResolver::new() { Ok(r) => r, Err(_) => return c.tag("sockets-not-exercised") };
+    resolver.set_query_timeout(Duration::from_millis(900));
+    let (tx, rx) = std::sync::mpsc::channel();
+    let handle = std::thread::spawn(move || {
+        let r = std::panic::catch_unwind(std::panic::AssertUnwindSafe(|| resolver.query_service_address("verif-res14._tcp.local")));
+        let _ = tx.send(match r { Ok(Ok(a)) => format!("ok {:?}", a), Ok(Err(_)) => "err".to_string(), Err(_) => "panic".to_string() });
+    });
+    let sock = match UdpSocket::bind("0.0.0.0:0") { Ok(s) => s, Err(_) => return c.tag("sockets-not-exercised") };
+    let dest = "224.0.0.251:5353";
+    std::thread::sleep(Duration::from_millis(150));
+    let mut n = 0;
+    for (mut d, _) in hostile_messages(tier, seed ^ 0x0E5).into_iter().filter(|(b, _)| b.len() >= 12 && b.len() <= 1400).take(if tier == "thorough" { 1500 } else { 250 }) {
+        d[0] = 0; d[1] = 0; d[2] |= 0x80; if d[6] == 0 && d[7] == 0 { d[7] = 1; }
+        let _ = sock.send_to(&d, dest);
+        n += 1;
+        if n % 50 == 0 { std::thread::sleep(Duration::from_millis(5)); }
+    }
+    let name = Name::new_unchecked("verif-res14._tcp.local");
+    // answers for the queried name that are not addresses, then the address
+    for rd in [RData::TXT(simple_dns::rdata::TXT::new()), RData::A(A { address: 0x7F000009 })] {
+        let mut p = Packet::new_reply(0);
+        p.answers.push(ResourceRecord::new(hostile_name(&mut Rng::new(seed)), CLASS::IN, 5, RData::A(A { address: 1 })));
+        if matches!(rd, RData::A(_)) { p.answers.push(ResourceRecord::new(name.clone(), CLASS::IN, 5, rd)); }
+        else { p.additional_records.push(ResourceRecord::new(name.clone(), CLASS::IN, 5, rd)); }
+        let _ = sock.send_to(&p.build_bytes_vec_compressed().unwrap(), dest);
+    }
+    match rx.recv_timeout(Duration::from_secs(8)) {
+        Ok(s) if s == "panic" => { c = c.fail("resolver-panic", format!("query_service_address panicked while {} hostile datagrams arrived", n)); }
+        Ok(s) if s.starts_with("ok Some") => { c = c.tag("resolver-answered"); if s != "ok Some(127.0.0.9)" { c = c.fail("resolver-answer", format!("answered {} for a name whose only address record is 127.0.0.9", s)); } }
+        Ok(_) => { c = c.tag("resolver-no-answer"); }
+        Err(_) => { c = c.fail("resolver-wedged", format!("query_service_address did not return within 8 s of a 0.9 s timeout ({} hostile datagrams)", n)); return c; }
+    }
+    let _ = handle.join();
+    c
+}
+
+/// the service-discovery listener over loopback multicast: hostile and odd announcements for the
+/// watched service, then a plain one; the shared store must stay usable (`get_known_services` does not
+/// panic on a poisoned lock) and the plain announcement must still be discovered
+fn live_discovery(tier: &str, seed: u64) -> Case {
+    use simple_mdns::sync_discovery::ServiceDiscovery;
+    use std::net::UdpSocket;
+    use std::time::{Duration, Instant};
+    let mut c = Case::oracle_only().tag("sockets-discovery");
+    let me = InstanceInformation::new("me".to_string()).with_ip_address(IpAddr::V4(Ipv4Addr::new(127, 0, 0, 1))).with_port(8014);
+    let sd = match std::panic::catch_unwind(|| ServiceDiscovery::new(me, "_verif14d._tcp.local", 60)) { Ok(Ok(s)) => s, _ => return c.tag("sockets-not-exercised") };
+    let sock = match UdpSocket::bind("0.0.0.0:0") { Ok(s) => s, Err(_) => return c.tag("sockets-not-exercised") };
+    let dest = "224.0.0.251:5353";
+    let service = Name::new_unchecked("_verif14d._tcp.local");
+    let announce = |label: &str, ttl: u32, flush: bool| -> Vec<u8> {
+        let full = mk_name(&[label.as_bytes().to_vec(), b"_verif14d".to_vec(), b"_tcp".to_vec(), b"local".to_vec()]);
+        let mut p = Packet::new_reply(0);
+        let mut recs = vec![
+            ResourceRecord::new(service.clone(), CLASS::IN, ttl, RData::PTR(PTR(full.clone()))),
+            ResourceRecord::new(full.clone(), CLASS::IN, ttl, RData::SRV(simple_dns::rdata::SRV { priority: 0, weight: 0, port: 8015, target: full.clone() })),
+            ResourceRecord::new(full.clone(), CLASS::IN, ttl, RData::A(A { address: 0x7F000002 })),
+        ];
+        for r in recs.iter_mut() { r.cache_flush = flush; }
+        for r in recs { p.answers.push(r); }
+        p.build_bytes_vec_compressed().unwrap()
+    };
+    std::thread::sleep(Duration::from_millis(200));
+    // baseline: the listener works in this environment at all
+    {
+        let deadline = Instant::now() + Duration::from_secs(3);
+        let mut ok = false;
+        while Instant::now() < deadline && !ok {
+            let _ = sock.send_to(&announce("basepeer", 120, false), dest);
+            std::thread::sleep(Duration::from_millis(120));
+            ok = sd.get_known_services().iter().any(|i| i.unescaped_instance_name() == "basepeer");
+        }
+        if !ok { return c.tag("sockets-not-exercised"); }
+    }
+    let mut r = Rng::new(seed ^ 0xD15);
+    let mut n = 0;
+    for i in 0..(if tier == "thorough" { 600 } else { 120 }) {
+        let label = *r.pick(&["peer1", "My Printer", "x.y", "peer2"]);
+        let d = announce(label, *r.pick(&[0u32, 0, 1, 120, 0x8000_0000, u32::MAX]), i % 3 == 0);
+        let _ = sock.send_to(&d, dest);
+        n += 1;
+        if n % 40 == 0 { std::thread::sleep(Duration::from_millis(5)); }
+    }
+    for (d, _) in hostile_messages(tier, seed ^ 0xD16).into_iter().filter(|(b, _)| b.len() <= 1400).take(150) { let _ = sock.send_to(&d, dest); }
+    std::thread::sleep(Duration::from_millis(150));
+    let deadline = Instant::now() + Duration::from_secs(8);
+    let mut found = false;
+    let mut poisoned = false;
+    while Instant::now() < deadline && !found && !poisoned {
+        let _ = sock.send_to(&announce("plainpeer", 120, false), dest);
+        std::thread::sleep(Duration::from_millis(120));
+        match std::panic::catch_unwind(std::panic::AssertUnwindSafe(|| sd.get_known_services())) {
+            Ok(known) => { found = known.iter().any(|i| i.unescaped_instance_name() == "plainpeer"); }
+            Err(_) => { poisoned = true; }
+        }
+    }
+    if poisoned { c = c.fail("discovery-store-unusable", format!("get_known_services panics after {} announcements: the listener died holding the store's lock", n)); }
+    else if !found { c = c.fail("discovery-wedged", format!("an announcement sent after {} hostile ones is not discovered within 8 s", n)); }
+    else { c = c.tag("sockets-alive"); }
+    c
 }
 
 fn inst_text(i: &InstanceInformation, name: &str) -> String {
